@@ -123,7 +123,7 @@ let run_op (op : string) (args : Sx.t list) : opres =
       { res with model = first res.model; spec = first res.spec }
     else res
   | ("sort" | "argsort"), [a; asc; _stable; l] ->
-    ax_op (sort_model (bool_of_sx asc) (op = "argsort") (z a)) (sort_spec (bool_of_sx asc) (op = "argsort") (z a)) l
+    ax_op (sort_model_all (bool_of_sx asc) (op = "argsort") (z a)) (sort_spec (bool_of_sx asc) (op = "argsort") (z a)) l
   | "getitem", [L items; l] ->
     let its = List.map item_of_sx items in
     let res = ax_op (getitem_model its) (getitem_spec its) l in
